@@ -333,6 +333,19 @@ def sched_families(tier, seed, rng, prop, n_random_q, n_random_t, n_tlc_q, n_tlc
     log(f"[gen] GenDBImpl/{cfg}: transitions={r['generated']} states={r['distinct']} schedules={total} used={len(scripts)}")
     fams.append(Family("sched-tlc", "sched", "SchedTrace", scripts,
                        dict(states=r["distinct"], transitions=r["generated"], scripts_total=total), env={"VERIF_FLUSH": "1"}))
+    # schedules with the graveyard collector as an actor (DBImpl.tla GScan + the writer protocol)
+    cfg = "GenDBImplGC.cfg"
+    r = core.tlc("GenDBImpl", cfg=cfg, subdir="gen", workers=1, heap="6g", timeout=1500)
+    if not r["ok"]:
+        raise MachineryError("schedule generation failed:\n" + r.get("error", r["stdout"][-2000:]))
+    hists = core.drop_prefixes([[str(x) for x in h] for h in core.scripts_from_tlc(r["stdout"])])
+    total = len(hists)
+    hists = [h for h in hists if any(int(x) >= 30 for x in h)]
+    hists = sample(hists, max(30, (n_tlc_q if quick else n_tlc_t) // 4), rng)
+    scripts = [sched_gen.from_tlc(rng, cfg, [int(x) for x in h]) for h in hists]
+    log(f"[gen] GenDBImpl/{cfg}: transitions={r['generated']} states={r['distinct']} schedules={total} used={len(scripts)}")
+    fams.append(Family("sched-tlc-gc", "sched", "SchedTrace", scripts,
+                       dict(states=r["distinct"], transitions=r["generated"], scripts_total=total), env={"VERIF_FLUSH": "1"}))
     return fams
 
 
